@@ -294,3 +294,38 @@ Proof.
   destruct A as [f [e [_ [_ PM]]]]. apply Permutation_length in PM. simpl in PM.
   unfold takeMsg. rewrite PM. simpl. rewrite HB. reflexivity.
 Qed.
+
+(* ---- a held-back JOIN is not starved (step-level part of eventual delivery) ---- *)
+(* a failed dequeue attempt (rate-limited JOIN) keeps every entry queued and does
+   not move the JOIN deadline lastJoin + rateLimit.join *)
+Theorem join_deadline_fixed c now s s' :
+  dequeue c now s = (s', None) ->
+  lastJoin s' = lastJoin s /\ Permutation (qpending s') (qpending s).
+Proof.
+  unfold dequeue, qpending. destruct s as [h n l lj f lt lp z ac op dd nx]. cbn.
+  destruct h; [|discriminate]. destruct n; [|discriminate].
+  destruct l as [|e l']; [intro H; inversion H; subst; cbn; auto|].
+  destruct (is_join e); [|discriminate]. destruct (lj + c_join c <=? now); [discriminate|].
+  intro H; inversion H; subst; cbn. split; [reflexivity|].
+  apply Permutation_sym. apply Permutation_cons_append.
+Qed.
+
+(* once the clock has reached the deadline, an un-throttled poll that finds the
+   JOIN at the head of the queue releases it *)
+Theorem join_released_at_deadline c filt s now e r :
+  fast s = [] -> hi s = [] -> no s = [] -> lo s = e :: r -> is_join e = true ->
+  c_throttle c < now - lastTake s -> lastJoin s + c_join c <= now ->
+  exists s1 evs k, take_body c filt s now = (s1, evs, k) /\ In (Took FromQueue e now) evs
+                   /\ lo s1 = r /\ lastJoin s1 = now.
+Proof.
+  intros F H N L J T D. unfold take_body. rewrite F.
+  assert (QN : queue_nonempty s = true) by (unfold queue_nonempty, qpending; rewrite H, N, L; reflexivity).
+  rewrite QN.
+  assert (TT : (now - lastTake s <=? c_throttle c) = false) by (apply Z.leb_gt; lia). rewrite TT.
+  assert (DQ : dequeue c now (set_lastTake s now) = (set_lastJoin (set_lo (set_lastTake s now) r) now, Some e)).
+  { unfold dequeue. destruct s as [h n l lj f lt lp z ac op dd nx]. cbn in *. subst. rewrite J.
+    assert (X : (lj + c_join c <=? now) = true) by (apply Z.leb_le; lia). rewrite X. reflexivity. }
+  rewrite DQ.
+  destruct (filt (snd e)); do 3 eexists; (split; [reflexivity|]); (split; [left; reflexivity|]);
+    destruct s; cbn; auto.
+Qed.
